@@ -847,7 +847,10 @@ namespace ip {
 			}
 			case aux::packet::type_t::syn_ack:
 			{
-				assert(m_connect_handler);
+				// the connect this SYN+ACK answers was cancelled, or has been
+				// replaced by another one
+				if (!m_connect_handler || p.channel != m_channel) return;
+
 				boost::system::error_code ec;
 				post(m_io_service, aux::make_malloc(std::bind(std::move(m_connect_handler), ec)));
 				m_connect_handler = nullptr;
